@@ -22,11 +22,43 @@ def _sym(n, seed, variant):
     if variant == "repeated_pair":
         S = np.diag(np.array([1.0, 1.0, 2.0, 3.0])[:n])
         return S
+    if variant == "negative":
+        Q = mzoo.P_orth(n, seed + 1)
+        w = np.array([-4.0, -0.5, -1.25, -2.0])[:n]
+        return (Q * w) @ Q.T
     if variant == "repeated_rotated":
         Q = mzoo.P_orth(n, seed)
         w = np.array([0.8, 0.8, -1.7, 2.0])[:n]
         return (Q * w) @ Q.T
     return mzoo.P_sym(n, seed)
+
+
+# Histories: operations applied to a matrix (and, for derived kinds, to the matrix it is derived
+# from) BEFORE the gradients are requested - lazily cached factors must not change the gradients.
+WARMS = ((), ("log_abs_det",), ("inv",), ("sqrt",), ("eigval",), ("T",), ("array",),
+         ("grad_log_abs_det",), ("grad_quadratic_form_inv",),
+         ("inv", "log_abs_det", "sqrt", "eigval", "grad_log_abs_det", "grad_quadratic_form_inv"))
+_BASE_WARM = [()]
+
+
+def apply_warm(m, warm):
+    for op in warm:
+        try:
+            if op == "grad_quadratic_form_inv":
+                m.grad_quadratic_form_inv(np.array([0.3, 0.9, -0.4, 1.2])[: m.shape[0]])
+            elif op == "inv":
+                m.inv @ np.ones(m.shape[0])
+            elif op == "sqrt":
+                m.sqrt @ np.ones(m.sqrt.shape[1])
+            else:
+                getattr(m, op)
+        except Exception:  # noqa: BLE001, S110
+            pass  # not every class offers every property
+    return m
+
+
+def _warm_base(m):
+    return apply_warm(m, _BASE_WARM[0])
 
 
 def build_param_case(cfg):
@@ -68,10 +100,10 @@ def build_param_case(cfg):
             return T0, base, lambda t: sign * t @ t.T, free, struct
         if how == "scaled":
             c = 2.5
-            return (T0, lambda t: c * base(t / np.sqrt(c)), lambda t: sign * t @ t.T, free,
-                    struct)
+            return (T0, lambda t: c * _warm_base(base(t / np.sqrt(c))),
+                    lambda t: sign * t @ t.T, free, struct)
         if how == "negated":
-            return T0, lambda t: -base(t), lambda t: -sign * t @ t.T, free, struct
+            return T0, lambda t: -_warm_base(base(t)), lambda t: -sign * t @ t.T, free, struct
         raise KeyError(k)
     if k.startswith("tri_factored"):
         # tri_factored_{pos|neg|pd}_{lower|upper}
@@ -114,8 +146,11 @@ def build_param_case(cfg):
                 lambda t: mzoo.softabs_dense(t, coeff),
                 [(i, j) for i in range(n) for j in range(i + 1)], "symmetric")
     if k.startswith("low_rank"):
-        # low_rank_{pos|neg}_{inner|noinner}_{diag|dense}
-        _, _, sg, inn, base = k.split("_")
+        # low_rank_{pos|neg}_{inner|noinner}_{diag|dense}[_{times|div}]: optionally derived from
+        # another (possibly already used) matrix by a positive scalar multiple / division
+        parts = k.split("_")
+        _, _, sg, inn, base = parts[:5]
+        how = parts[5] if len(parts) > 5 else None
         sign = 1 if sg == "pos" else -1
         r = 1 if n < 3 else 2
         U0 = (0.35 if sign == -1 else 1.0) * mzoo.P_rect(n, r, seed)
@@ -131,10 +166,16 @@ def build_param_case(cfg):
         else:
             dK = np.eye(r)
             mkK = lambda: None  # noqa: E731
-        return (U0, lambda t: M.PositiveDefiniteLowRankUpdateMatrix(
-            t.copy(), mkA(), mkK(), None, sign),
-            lambda t: dA + sign * t @ dK @ t.T,
-            [(i, j) for i in range(n) for j in range(r)], "dense")
+        mk0 = lambda t: M.PositiveDefiniteLowRankUpdateMatrix(  # noqa: E731
+            t.copy(), mkA(), mkK(), None, sign)
+        freeU = [(i, j) for i in range(n) for j in range(r)]
+        if how == "times":
+            return (U0, lambda t: 2.5 * _warm_base(mk0(t)),
+                    lambda t: 2.5 * (dA + sign * t @ dK @ t.T), freeU, "dense")
+        if how == "div":
+            return (U0, lambda t: _warm_base(mk0(t)) / 0.4,
+                    lambda t: (dA + sign * t @ dK @ t.T) / 0.4, freeU, "dense")
+        return (U0, mk0, lambda t: dA + sign * t @ dK @ t.T, freeU, "dense")
     raise KeyError(k)
 
 
@@ -150,6 +191,10 @@ KINDS = (
        for v in ("generic", "repeated_all", "repeated_pair", "repeated_rotated")]
     + [f"low_rank_{s}_{i}_{b}" for s in ("pos", "neg") for i in ("inner", "noinner")
        for b in ("diag", "dense")]
+    + [f"low_rank_{s}_{i}_diag_{h}" for s in ("pos", "neg") for i in ("inner", "noinner")
+       for h in ("times", "div")]
+    + [f"softabs_{c}_{v}" for c in ("100.0", "1000.0")
+       for v in ("generic", "repeated_rotated", "negative")]
 )
 
 
@@ -159,7 +204,8 @@ def configs(tier, seed):
         for k in KINDS:
             if n == 4 and k.startswith("dense_pd_product"):
                 continue  # the zoo's parameter tables are 4 x 4 / 4 x 5
-            cfgs.append({"kind": k, "n": n, "seed": seed, "block": False})
+            for ps in ((seed,) if tier == "quick" else (seed, seed + 1, seed + 2, seed + 3)):
+                cfgs.append({"kind": k, "n": n, "seed": ps, "block": False})
     # block compositions (tuple of block gradients), depth 2
     for combo in (("pos_diagonal", "dense_pd"), ("tri_factored_pd_lower", "softabs_1.0_generic"),
                   ("pos_scaled_identity", "low_rank_neg_inner_diag"),
@@ -189,8 +235,8 @@ def check_single(cfg, acc, vec_shift=0):
     d0 = dense(theta0)
     v = np.array([0.7, -1.3, 0.4, 1.9])[: d0.shape[0]] + 0.1 * vec_shift
     symmetric = structure == "symmetric"
-    fields = {"class": type(m).__name__, "param_kind": cfg["kind"] if isinstance(cfg["kind"], str)
-              else "block"}
+    fields0 = {"class": type(m).__name__, "param_kind": cfg["kind"] if isinstance(cfg["kind"], str)
+               else "block"}
 
     def ref_logdet(t):
         return np.linalg.slogdet(dense(t))[1]
@@ -198,18 +244,29 @@ def check_single(cfg, acc, vec_shift=0):
     def ref_quad(t):
         return v @ np.linalg.solve(dense(t), v)
 
-    for name, getter, ref in (("grad_log_abs_det", lambda: m.grad_log_abs_det, ref_logdet),
-                              ("grad_quadratic_form_inv",
-                               lambda: m.grad_quadratic_form_inv(v.copy()), ref_quad)):
+    wants = {}
+    for warm, name, ref in [(w, nm, rf) for w in WARMS
+                            for nm, rf in (("grad_log_abs_det", ref_logdet),
+                                           ("grad_quadratic_form_inv", ref_quad))]:
         acc.count("evaluations")
+        fields = {**fields0, "warm": "+".join(warm) or "none"}
         try:
-            g = getter()
+            _BASE_WARM[0] = warm
+            try:
+                m = make(theta0)
+            finally:
+                _BASE_WARM[0] = ()
+            apply_warm(m, warm)
+            g = m.grad_log_abs_det if name == "grad_log_abs_det" \
+                else m.grad_quadratic_form_inv(v.copy())
             g = np.asarray(g, dtype=float)
         except Exception as e:  # noqa: BLE001
             acc.violation(driver="lattice", config=cfg, fields={**fields, "method": name},
                           kind="exception", observed=repr(e)[:200], expected="gradient")
             continue
-        want = fd_wrt(theta0, free, ref, symmetric)
+        if name not in wants:
+            wants[name] = fd_wrt(theta0, free, ref, symmetric)
+        want = wants[name]
         if g.shape != np.shape(theta0):
             acc.violation(driver="lattice", config=cfg, fields={**fields, "method": name},
                           kind="structure", observed=list(g.shape),
@@ -243,7 +300,7 @@ def check_single(cfg, acc, vec_shift=0):
                 acc.violation(driver="lattice", config=cfg, fields={**fields, "method": name},
                               kind="structure", observed=g, expected="zeros outside triangle")
                 continue
-        acc.outcome((fields["class"], name, n, round(float(np.sum(g)), 8)))
+        acc.outcome((fields["class"], name, n, fields["warm"], round(float(np.sum(g)), 8)))
 
 
 def check_block(cfg, acc):
@@ -319,7 +376,11 @@ def run(tier, seed, acc):
         "rule": "every DifferentiableMatrix class x option (sign, lower/upper, inner matrix, "
                 "SoftAbs coefficient, repeated eigenvalues, block compositions) x size; both "
                 "gradient methods vs central differences of the dense formulas over the free "
-                "parameter entries (symmetric perturbations for symmetric parameters); "
+                "parameter entries (symmetric perturbations for symmetric parameters), after "
+                "each history of the warm-up menu (inverse, square root, eigenvalues, transpose, "
+                "log-determinant, earlier gradient calls; for matrices derived by a scalar "
+                "multiple / division / negation the history is applied to the matrix they are "
+                "derived from); "
                 "distinct = distinct (class, method, size, gradient)",
         "exhaustive": True,
         "bounds": {"configs": len(cfgs), "fd_step": H},
